@@ -325,7 +325,7 @@ fn check_grid_build(recs: &[Tags]) -> Verdict {
 
 pub fn run(tier: Tier) -> i32 {
     let mut run = Run::new("C19", tier, "exploration");
-    run.rule = "every value of Σ and U: the 18 predicates, HaystackKind::from, all 20 typed TryFrom<&Value> conversions, the 14 typed dict getters + 3 has_* (key present with that value / absent); all 256 u8 codes and all 18 names plus every near-miss name; every list of <= 4 (quick 3) records over 19 records (every key set over {a,b,c,d} + mixed-case names) through the three grid constructors; non-trivial = distinct value / name / record list".into();
+    run.rule = "every value of Σ and U: the 18 predicates, HaystackKind::from, all 20 typed TryFrom<&Value> conversions, the 14 typed dict getters + 3 has_* (key present with that value / absent); all 256 u8 codes and all 18 names plus every near-miss name; every list of <= 4 (quick 3) records over 19 records (every key set over {a,b,c,d} + mixed-case names) through the three grid constructors, and records of every width 1..72, 100, 127..129, 255..257 in six list shapes (same record twice, one tag fewer then one more, overlapping halves, an empty record in the middle, even/odd/all, narrow-wide-narrow); non-trivial = distinct value / name / record list".into();
     crate::engine::quiet_panics();
     let mut l0 = Local::new();
     if let Err(m) = guarded(|| check_codes(&mut l0)) {
@@ -379,6 +379,43 @@ pub fn run(tier: Tier) -> i32 {
         lists.extend(next.clone());
         frontier = next;
     }
+    // wide records: every width 1..=72 and around 2^7, 2^8 (a threshold in the column bookkeeping
+    // shows at its own width), in five list shapes
+    let widths: Vec<usize> = (1..=72).chain([100, 127, 128, 129, 255, 256, 257]).collect();
+    let l = par_for(widths.len(), |wi, local| {
+        let n = widths[wi];
+        let t = |r: std::ops::Range<usize>| -> Tags {
+            let mut t: Tags = r.map(|i| (format!("t{i}"), if i % 3 == 0 { V::Marker } else { V::num(i as f64) })).collect();
+            t.sort_by(|a, b| a.0.cmp(&b.0));
+            t
+        };
+        let shapes: Vec<Vec<Tags>> = vec![
+            vec![t(0..n), t(0..n)],
+            vec![t(0..n.saturating_sub(1)), t(0..n + 1)],
+            vec![t(0..n), t(n / 2..n + n / 2)],
+            vec![t(0..n), vec![], t(0..n), t(n..n + 2)],
+            vec![(0..n).step_by(2).map(|i| (format!("t{i}"), V::Marker)).collect::<Tags>(), (1..n).step_by(2).map(|i| (format!("t{i}"), V::Marker)).collect::<Tags>(), t(0..n)]
+                .into_iter()
+                .map(|mut r| {
+                    r.sort_by(|a, b| a.0.cmp(&b.0));
+                    r
+                })
+                .collect(),
+            vec![t(0..1), t(0..n), t(0..2)],
+        ];
+        for rs in shapes {
+            local.eval();
+            local.nontrivial(&format!("wide{n}:{}", rs.len()));
+            local.count("wide-grid-builds");
+            let case = json!({"records": rs.iter().map(|r| to_json(&V::Dict(r.clone()))).collect::<Vec<_>>()});
+            match guarded(|| check_grid_build(&rs)) {
+                Ok(Ok(())) => local.outcome("ok"),
+                Ok(Err((stage, d))) => local.fail(&stage, case, d),
+                Err(p) => local.fail("panic:grid-build", case, p),
+            }
+        }
+    });
+    run.absorb(l);
     let l = par_for(lists.len(), |i, local| {
         let rs: Vec<Tags> = lists[i].iter().map(|&k| recs[k].clone()).collect();
         local.eval();
